@@ -156,9 +156,11 @@ class FractionScalar(AbstractValueWithQuantityObject):
         result = FractionValue(number=converted_number)
         # convert fraction's numerator
         if fraction_value.GetFraction() is not None:
+            # The fraction is an increment over the number: only the scale of the conversion
+            # applies to it (an offset, as in degC -> K, must not be added a second time).
             converted_numerator = convert_to_quantity.ConvertScalarValue(
                 fraction_value.GetFraction().numerator, to_unit
-            )
+            ) - convert_to_quantity.ConvertScalarValue(0.0, to_unit)
 
             converted_fraction = copy.copy(fraction_value.GetFraction())
             converted_fraction.numerator = converted_numerator
